@@ -690,6 +690,20 @@ def call_method(interp, recv, name, args, kwargs):
         tn = norm(interp, t)
         if isinstance(x, tuple):
             return wrap(z3.Or(*[f(_sn(interp, y), tn) for y in x])) if x else False
+        if isinstance(x, str) and len(x) == 1 and not st.no_fork:
+            r = z3.simplify(f(z3.StringVal(x), tn))
+            if z3.is_true(r) or z3.is_false(r):
+                return z3.is_true(r)
+            # the first / last character as a piece of its own: ties the answer to the counting measure
+            if not st.fork(wrap(z3.Length(t) >= 1)):
+                return False
+            if name == 'startswith':
+                c, _rest = decompose(interp, t, [1, None], 'char')
+            else:
+                _rest, c = decompose(interp, t, [None, 1], 'char')
+            for ch, fn in _count_fns(interp).items():
+                _count_facts(interp, fn, ch, c)
+            return wrap(c == z3.StringVal(x))
         return wrap(f(_sn(interp, x), tn))
     if name in ('find', 'index', 'rfind', 'rindex'):
         if len(args) > 3:
@@ -711,6 +725,8 @@ def call_method(interp, recv, name, args, kwargs):
     if name in ('split', 'rsplit'):
         sep = args[0] if args else kwargs.get('sep')
         maxsplit = args[1] if len(args) > 1 else kwargs.get('maxsplit', -1)
+        if isinstance(sep, str) and len(sep) == 1 and isinstance(maxsplit, int) and maxsplit == -1:
+            return split_all(interp, recv, sep)
         if sep is None or maxsplit != 1:
             raise Unsupported('str.%s without separator or with maxsplit != 1' % name)
         found, a, b = _split_once(interp, recv, sep, reverse=(name == 'rsplit'))
@@ -797,5 +813,114 @@ def int_of_str(interp, s):
     return wrap(val(t))
 
 
+# ------------------------------------------------------------------------------ join measure / split
+
+def _join_fn(sep):
+    name = 'join_' + ''.join('u%04x' % ord(c) for c in sep)
+    return z3.Function(name, z3.ArraySort(z3.IntSort(), z3.StringSort()), z3.IntSort(), z3.StringSort())
+
+
+def _join_def(interp, J, sep, arr, n):
+    """instance at (arr, n) of the recursive definition of  sep.join(first n elements of arr)"""
+    st = interp.st
+    key = ('__join_def__', sep, arr.get_id(), z3.simplify(n).sexpr())
+    if key in st.ghost:
+        return
+    st.ghost[key] = (arr, n)
+    sv = z3.StringVal(sep)
+    st.axiom(z3.Implies(n <= 0, J(arr, n) == z3.StringVal('')))
+    st.axiom(z3.Implies(n == 1, J(arr, n) == z3.Select(arr, 0)))
+    st.axiom(z3.Implies(n >= 2, J(arr, n) == z3.Concat(J(arr, n - 1), sv, z3.Select(arr, n - 1))))
+
+
+def join_term(interp, xs, sep):
+    """sep.join(xs) for a symbolic list of strings: a measure J(array, length), defined by recursion on the
+    length; the instances that tie it to the way the list was built (append, removal of the last element,
+    str.split) are added where those operations happen."""
+    from .mlist import MList
+    st = interp.st
+    if not isinstance(sep, str):
+        raise Unsupported('str.join with symbolic separator over a symbolic-length sequence')
+    if not isinstance(xs, MList) or xs.shape != ('str',):
+        if isinstance(xs, MList) and xs.shape is None:
+            return ''
+        raise Unsupported('str.join over symbolic-length sequence that is not a list of strings (MListOf(Str))')
+    J = _join_fn(sep)
+    arr, n = xs.arrs[()], xs.length
+    t = J(arr, n)
+    _join_def(interp, J, sep, arr, n)
+    sv = z3.StringVal(sep)
+    # follow the recorded history of the list: each step is an instance of the definition plus the frame
+    # property (elements beyond the length do not matter)
+    h = xs.hist
+    cur = t
+    depth = 0
+    while h is not None and depth < 4:
+        kind = h[0]
+        if kind == 'append':
+            _, arr0, n0, v, prev = h
+            old = J(arr0, n0)
+            vt = _s(v)
+            st.axiom(cur == z3.If(n0 <= 0, vt, z3.Concat(old, sv, vt)))
+            if st.len_must_hold(n0 >= 1) and not _decomps(interp, cur):
+                _add_decomp(interp, cur, _flat_concat(norm(interp, z3.Concat(old, sv, vt))))
+            cur = old
+        elif kind == 'poplast':
+            _, arr0, n0, prev = h          # state before: (arr0, n0); now (arr0, n0 - 1)
+            before = J(arr0, n0)
+            last = z3.Select(arr0, n0 - 1)
+            st.axiom(z3.Implies(n0 >= 2, before == z3.Concat(cur, sv, last)))
+            st.axiom(z3.Implies(n0 == 1, before == last))
+            if st.len_must_hold(n0 >= 2) and not _decomps(interp, before):
+                _add_decomp(interp, before, _flat_concat(norm(interp, z3.Concat(cur, sv, last))))
+            cur = before
+        elif kind == 'is':
+            # the list was created with a known joined value (str.split)
+            _, whole = h[:2]
+            prev = None
+            if not cur.eq(whole):
+                st.axiom(cur == whole)
+                if not _decomps(interp, cur):
+                    _add_decomp(interp, cur, _flat_concat(norm(interp, whole)))
+        else:
+            break
+        h = prev
+        depth += 1
+    return t
+
+
 def join_slist(interp, sep, xs):
-    raise Unsupported('str.join over symbolic-length sequence (use a spec function / measure)')
+    return wrap(join_term(interp, xs, sep))
+
+
+def split_all(interp, s, ch):
+    """s.split(ch) for a single character ch: the list L with ch.join(L) == s, len(L) == count(ch, s) + 1 and
+    no element containing ch.  Given through: the length, the join measure, the last element (aligned with
+    the known pieces of s) and the join of the others."""
+    from .mlist import MList, from_concrete
+    st = interp.st
+    t = _s(s)
+    loc = _locate_single(interp, t, ch, True)
+    if loc is None:
+        raise Unsupported('str.split in a context where no case split is possible')
+    if loc[0] == 'absent':
+        xs = from_concrete(interp, [wrap(t)], 'split')
+        xs.hist = ('is', t, None)
+        return xs
+    head, last = loc[1], loc[2]
+    xs = MList(interp, st.fresh_name('split'), ('str',))
+    n = st.fresh_int('split.len')
+    st.assume(n == count_term(interp, t, ch) + 1)
+    st.assume(n >= 2)
+    xs.length = n
+    arr = xs.arrs[()]
+    J = _join_fn(ch)
+    st.assume(z3.Select(arr, n - 1) == last)
+    st.assume(J(arr, n) == t)
+    st.assume(J(arr, n - 1) == head)
+    # no element contains the separator
+    j = z3.Int('j!split')
+    f = count_fn(interp, ch)
+    st.assume(z3.ForAll([j], z3.Implies(z3.And(j >= 0, j < n), f(z3.Select(arr, j)) == 0)))
+    xs.hist = ('is', t, None)
+    return xs
